@@ -80,6 +80,17 @@ func genSpec(r *rand.Rand, ver version.Version, big bool) *sxSpec {
 		sp.uri = []string{"http" + sp.uri[5:], "ftp://" + host + "/f", "/relative/path", "", "https://" + host + "/%zz", "https://" + host + ":port/", "//" + host + "/x"}[r.Intn(7)]
 	}
 	sp.vURL = "https://" + host + randPath(r, []int{3, 20, 240, 300}[r.Intn(4)])
+	if r.Intn(6) == 0 { // validity URLs as another implementation may spell them (same URL, not Go's spelling)
+		sp.rawVURL = true
+		switch r.Intn(3) {
+		case 0:
+			sp.vURL = "HTTPS" + sp.vURL[5:]
+		case 1:
+			sp.vURL += "#"
+		default:
+			sp.vURL = "https://" + strings.ToUpper(host) + "/V%7e"
+		}
+	}
 	sp.certURL = "https://cert.example/" + randToken(r, 1+r.Intn(20))
 	if r.Intn(6) == 0 {
 		sp.certURL = "data:application/cert-chain+cbor;base64," + randToken(r, 8)
